@@ -40,6 +40,14 @@ pub fn gen(rng: &mut Rng, _tier: Tier) -> Scn {
         let len = if syms == 0 { 0 } else { (syms * e as u64 - rng.range(0, e as u64 - 1)) as usize };
         let mut o = ObjectSpec::basic(len, rng.next_u64(), i);
         o.oti = Some(OtiSpec::new(scheme, e, b, if scheme == Scheme::NoCode { 0 } else { rng.range(1, 2) as u32 }, true));
+        if rng.chance(0.25) {
+            // the number of packets to pace is the one of the TRANSFER length (content encoding changes it)
+            o.cenc = *rng.pick(&[CencSpec::Zlib, CencSpec::Deflate, CencSpec::Gzip]);
+            if rng.chance(0.6) {
+                o.kind = ContentKind::Text;
+                o.len = (o.len * *rng.pick(&[1usize, 4, 12])).min(4000);
+            }
+        }
         o.prio = spec.queues[rng.below(spec.queues.len() as u64) as usize].0;
         o.max_transfer_count = *rng.pick(&[1u32, 1, 2, 3]);
         // start time before / at / after the first poll
